@@ -1,8 +1,359 @@
+import CV.Model.Chain
+import CV.Model.TableModel
 import CV.Driver.Util
-/-! Line protocol for component `chain` (stub; owned by the component's author) -/
-namespace CV.Driver.Chain
-open CV CV.Driver
+/-!
+Line protocol for the chain coder.
 
-def handle (_segs : List (List String)) : String := "bad-op"
+`chain W S P0 | init | op | op …`
+
+init: `binary ws` | `compressed ws` | `remainders ws` | `raw comp rems hc hr`
+      (word lists in Rust `Vec` order, i.e. top of stack last); a failing constructor makes the
+      whole line `err`.
+ops:  `dec b cdf` · `enc b cum p` · `encnone b` · `encsym b cdf s` · `encs b form cdf syms errAt`
+      · `decs b form cdf n errAt` · `cp q` · `incp q` · `decp q` · `whole` · `raw` · `intorem`
+      · `intocomp` · `intobin` · `reimport 1|2` · `final comp|bin` · `mex` · `mfull` · `clone`
+      · `snap` · `seekto i`
+
+`chainsweep W S P B kind lo hi` → `count digest` (complete single-step sweeps through raw heads).
+-/
+namespace CV.Driver.Chain
+open CV CV.Driver CV.Chain
+
+structure St where
+  x : Coder
+  P : Nat
+  /-- the `prefix` put away by `reimport 1` -/
+  stash : List Nat := []
+  /-- `(P, pos)` snapshots, newest first -/
+  snaps : List (Nat × Nat × Nat × Heads) := []
+
+def cfgOf (W S P B : Nat) : Cfg := { W := W, S := S, P := P, B := B }
+
+/-- a stack in Rust `Vec` order -/
+def showStack (l : List Nat) : String := showList l.reverse
+
+def showRaw (x : Coder) : String :=
+  showStack x.compressed ++ " " ++ showStack x.remainders ++ " " ++
+    toHex x.heads.compressed ++ " " ++ toHex x.heads.remainders
+
+/-- what the crate's static assertions say about a coder precision -/
+def precOk (W S q : Nat) : Bool := decide (1 ≤ q ∧ q ≤ W ∧ W + q ≤ S)
+
+def doInit (W S P : Nat) (seg : List String) : Option (Option Coder) :=
+  let c := cfgOf W S P P
+  match seg with
+  | ["binary", ws] => do
+      let l ← parseList ws
+      some (fromBinary c l.reverse)
+  | ["compressed", ws] => do
+      let l ← parseList ws
+      some (fromCompressed c l.reverse)
+  | ["remainders", ws] => do
+      let l ← parseList ws
+      some (fromRemainders c l.reverse)
+  | ["raw", comp, rems, hc, hr] => do
+      let comp ← parseList comp
+      let rems ← parseList rems
+      let hc ← parseHex hc
+      let hr ← parseHex hr
+      if hc = 0 then some none else
+      some (some { compressed := comp.reverse, remainders := rems.reverse,
+                   heads := { compressed := hc, remainders := hr } })
+  | _ => none
+
+def encErrStr : EncErr → String × Bool
+  | .impossible => ("impossible", false)
+  | .outOfRemainders => ("out_of_remainders", false)
+  | .fault f => (faultStr f, true)
+
+def encOut (r : Except EncErr Coder) (x : Coder) : Coder × String × Bool :=
+  match r with
+  | .ok y => (y, "ok", false)
+  | .error e => (x, (encErrStr e).1, (encErrStr e).2)
+
+def expOut (r : Except ExpErr (List Nat × List Nat)) : String × Bool :=
+  match r with
+  | .ok (pre, suf) => (showStack pre ++ " " ++ showStack suf, false)
+  | .error .notWhole => ("notwhole", false)
+  | .error (.fault f) => (faultStr f, true)
+
+/-- per-item loop of `encode_symbols` & friends over a table model (`none` = `Err` item of the
+    `try_` forms) -/
+def encLoop (c : Cfg) (t : List Nat) : Coder → List (Option Nat) → (Coder × String × Bool)
+  | x, [] => (x, "ok", false)
+  | x, none :: _ => (x, "modelerr", false)
+  | x, some s :: rest =>
+    match encode c (tableModel t) s x with
+    | .ok y => encLoop c t y rest
+    | .error e => (x, (encErrStr e).1, (encErrStr e).2)
+
+def decLoop (c : Cfg) (t : List Nat) : Coder → List Bool → List Nat → (Coder × String × Bool)
+  | x, [], acc => (x, showList acc.reverse, false)
+  | x, true :: _, acc => (x, showList acc.reverse ++ " modelerr", false)
+  | x, false :: rest, acc =>
+    match decode c (tableModel t) x with
+    | .ok (s, y) => decLoop c t y rest (s :: acc)
+    | .error .outOfData => (x, showList acc.reverse ++ " out_of_data", false)
+    | .error (.fault f) => (x, faultStr f, true)
+
+def parseOptIdx (s : String) : Option (Option Nat) :=
+  if s == "-" then some none else (parseHex s).map some
+
+def listGet? : List α → Nat → Option α
+  | [], _ => none
+  | a :: _, 0 => some a
+  | _ :: l, n + 1 => listGet? l n
+
+/-- one op; returns new state, output, and whether the history died (panic) -/
+def doOp (W S : Nat) (st : St) (seg : List String) : Option (St × String × Bool) :=
+  let x := st.x
+  let upd (r : Coder × String × Bool) : St × String × Bool := ({ st with x := r.1 }, r.2.1, r.2.2)
+  match seg with
+  | ["dec", b, cdf] => do
+      let c := cfgOf W S st.P (← parseHex b)
+      let t ← parseList cdf
+      match decode c (tableModel t) x with
+      | .ok (s, y) => some ({ st with x := y }, toHex s, false)
+      | .error .outOfData => some (st, "out_of_data", false)
+      | .error (.fault f) => some (st, faultStr f, true)
+  | ["enc", b, cum, pr] => do
+      let c := cfgOf W S st.P (← parseHex b)
+      some (upd (encOut (encodeCP c x (← parseHex cum) (← parseHex pr)) x))
+  | ["encnone", _] => some (st, "impossible", false)
+  | ["encsym", b, cdf, s] => do
+      let c := cfgOf W S st.P (← parseHex b)
+      let t ← parseList cdf
+      some (upd (encOut (encode c (tableModel t) (← parseHex s) x) x))
+  | ["encs", b, form, cdf, syms, errAt] => do
+      let c := cfgOf W S st.P (← parseHex b)
+      let t ← parseList cdf
+      let syms ← parseList syms
+      let form ← parseHex form
+      let errAt ← parseOptIdx errAt
+      if form > 5 then none else
+      let isTry := form == 2 || form == 3
+      let items : List (Option Nat) := (syms.zipIdx).map (fun (s, i) =>
+        if isTry && errAt == some i then none else some s)
+      let items := if form == 1 || form == 3 || form == 5 then items.reverse else items
+      some (upd (encLoop c t x items))
+  | ["decs", b, form, cdf, n, errAt] => do
+      let c := cfgOf W S st.P (← parseHex b)
+      let t ← parseList cdf
+      let n ← parseHex n
+      let form ← parseHex form
+      let errAt ← parseOptIdx errAt
+      if form > 2 then none else
+      let items : List Bool := (List.range n).map (fun i => form == 1 && errAt == some i)
+      some (upd (decLoop c t x items []))
+  | [op, q] =>
+      if op == "cp" || op == "incp" || op == "decp" then do
+        let q ← parseHex q
+        let c := cfgOf W S st.P st.P
+        let legal := precOk W S q &&
+          (if op == "incp" then decide (q ≥ st.P) else if op == "decp" then decide (q ≤ st.P) else true)
+        if !legal then some (st, "unsupported", false) else
+        let r : Except EncErr Coder :=
+          if op == "cp" then changePrecision c q x
+          else if op == "incp" then .ok (increasePrecision c q x)
+          else decreasePrecision c q x
+        match r with
+        | .ok y => some ({ st with x := y, P := q }, "ok", false)
+        | .error e => some (st, (encErrStr e).1, (encErrStr e).2)
+      else if op == "reimport" then do
+        let k ← parseHex q
+        let c := cfgOf W S st.P st.P
+        match intoRemainders c x with
+        | .error f => some (st, faultStr f, true)
+        | .ok (pre, suf) =>
+          if k == 1 then
+            match fromRemainders c suf with
+            | some y => some ({ st with x := y, stash := pre }, "ok", false)
+            | none => some (st, "err", false)
+          else if k == 2 then
+            -- concatenation in `Vec` order: `prefix` below `suffix`
+            match fromRemainders c (suf ++ pre) with
+            | some y => some ({ st with x := y, stash := [] }, "ok", false)
+            | none => some (st, "err", false)
+          else none
+      else if op == "final" then
+        let c := cfgOf W S st.P st.P
+        let r := if q == "comp" then some (intoCompressed c x) else if q == "bin" then some (intoBinary c x) else none
+        match r with
+        | none => none
+        | some (.ok (pre, suf)) => some (st, showStack (suf ++ pre ++ st.stash), false)
+        | some (.error .notWhole) => some (st, "notwhole", false)
+        | some (.error (.fault f)) => some (st, faultStr f, true)
+      else if op == "seekto" then do
+        let i ← parseHex q
+        match listGet? st.snaps.reverse i with
+        | none => some (st, "unsupported", false)
+        | some (p, pos) =>
+          if p ≠ st.P then some (st, "unsupported", false) else
+          let (y, ok) := seek x pos
+          some ({ st with x := y }, if ok then "ok" else "err", false)
+      else none
+  | ["whole"] => some (st, showBool (isWhole x), false)
+  | ["raw"] => some (st, showRaw x ++ " " ++ toHex st.P, false)
+  | ["intorem"] =>
+      match intoRemainders (cfgOf W S st.P st.P) x with
+      | .ok (pre, suf) => some (st, showStack pre ++ " " ++ showStack suf, false)
+      | .error f => some (st, faultStr f, true)
+  | ["intocomp"] =>
+      let r := expOut (intoCompressed (cfgOf W S st.P st.P) x)
+      some (st, r.1, r.2)
+  | ["intobin"] =>
+      let r := expOut (intoBinary (cfgOf W S st.P st.P) x)
+      some (st, r.1, r.2)
+  | ["mex"] => some (st, showBool (maybeExhausted x), false)
+  | ["mfull"] => some (st, showBool (maybeFull x), false)
+  | ["clone"] => some (st, "ok", false)
+  | ["snap"] =>
+      let p := pos x
+      some ({ st with snaps := (st.P, p) :: st.snaps },
+        toHex p.1 ++ " " ++ toHex p.2.1 ++ " " ++ toHex p.2.2.compressed ++ " " ++ toHex p.2.2.remainders, false)
+  | _ => none
+
+def runOps (W S : Nat) : St → List (List String) → List String → List String
+  | _, [], acc => acc.reverse
+  | st, seg :: rest, acc =>
+    match doOp W S st seg with
+    | none => ("bad-op" :: acc).reverse
+    | some (st', out, dead) =>
+      if dead then (out :: acc).reverse else runOps W S st' rest (out :: acc)
+
+/-! ## complete single-step sweeps (raw heads) -/
+
+def foldList (h : UInt64) (l : List Nat) : UInt64 :=
+  l.foldl digestStep (digestStep h l.length)
+
+def foldCoder (h : UInt64) (x : Coder) : UInt64 :=
+  let h := digestStep h x.heads.compressed
+  let h := digestStep h x.heads.remainders
+  -- stacks in `Vec` order
+  foldList (foldList h x.compressed.reverse) x.remainders.reverse
+
+def faultCode : Fault → Nat
+  | .overflow _ => 4
+  | .shift _ => 5
+  | .panic _ => 6
+  | .ub _ => 7
+
+def foldDec (h : UInt64) (r : Except DecErr (Nat × Coder)) : UInt64 :=
+  match r with
+  | .ok (s, y) => foldCoder (digestStep (digestStep h 0) s) y
+  | .error .outOfData => digestStep h 1
+  | .error (.fault f) => digestStep h (faultCode f)
+
+def foldEnc (h : UInt64) (r : Except EncErr Coder) : UInt64 :=
+  match r with
+  | .ok y => foldCoder (digestStep h 0) y
+  | .error .outOfRemainders => digestStep h 2
+  | .error .impossible => digestStep h 3
+  | .error (.fault f) => digestStep h (faultCode f)
+
+def foldExp (h : UInt64) (r : Except ExpErr (List Nat × List Nat)) : UInt64 :=
+  match r with
+  | .ok (a, b) => foldList (foldList (digestStep h 0) a.reverse) b.reverse
+  | .error .notWhole => digestStep h 8
+  | .error (.fault f) => digestStep h (faultCode f)
+
+/-- `for i in lo..=hi` fold -/
+def forRange (lo hi : Nat) (init : σ) (f : σ → Nat → σ) : σ :=
+  (List.range' lo (hi + 1 - lo)).foldl f init
+
+structure Acc where
+  n : Nat := 0
+  h : UInt64 := digestInit
+
+def Acc.step (a : Acc) (g : UInt64 → UInt64) : Acc := { n := a.n + 1, h := g a.h }
+
+def mkCoder (comp rems : List Nat) (hc hr : Nat) : Coder :=
+  { compressed := comp, remainders := rems, heads := { compressed := hc, remainders := hr } }
+
+/-- the words tried as top of a stack in the remainders-side sweeps -/
+def probeWords (W : Nat) : List Nat := [0, 1, 2^(W-1), 2^W - 1]
+
+def sweep (W S P B : Nat) (kind : String) (lo hi : Nat) : Option Acc :=
+  let c := cfgOf W S P B
+  let top := 2^P
+  let hr0 := 2^(S - W - P)
+  match kind with
+  | "decbits" =>
+    -- all compressed heads `hc ∈ [lo, hi]` × all next words; 2-symbol model
+    some <| forRange lo hi {} fun a hc =>
+      forRange 0 (2^W - 1) a fun a w =>
+        a.step fun h => foldDec h (decode c (tableModel [0, top / 2, top]) (mkCoder [w] [] hc hr0))
+  | "decbits0" =>
+    -- same with an empty compressed stack
+    some <| forRange lo hi {} fun a hc =>
+      a.step fun h => foldDec h (decode c (tableModel [0, top / 2, top]) (mkCoder [] [] hc hr0))
+  | "decrem" =>
+    -- all remainders heads `hr ∈ [lo, hi]` × all `p` × all remainders `< p`, `cum ∈ {0, 2^P - p}`
+    some <| forRange lo hi {} fun a hr =>
+      forRange 1 (top - 1) a fun a p =>
+        forRange 0 (p - 1) a fun a r =>
+          let a := a.step fun h => foldDec h (decode c (tableModel [0, p, top]) (mkCoder [r] [] 1 hr))
+          a.step fun h => foldDec h (decode c (tableModel [0, top - p, top]) (mkCoder [top - p + r] [] 1 hr))
+  | "encbits" =>
+    some <| forRange lo hi {} fun a hc =>
+      forRange 0 (top - 1) a fun a q =>
+        a.step fun h => foldEnc h (encodeCP c (mkCoder [] [] hc hr0) q 1)
+  | "encrem" =>
+    some <| forRange lo hi {} fun a hr =>
+      forRange 1 (top - 1) a fun a p =>
+        let a := a.step fun h => foldEnc h (encodeCP c (mkCoder [] [] 1 hr) 0 p)
+        let a := a.step fun h => foldEnc h (encodeCP c (mkCoder [] [] 1 hr) (top - p) p)
+        (probeWords W).foldl (fun a w =>
+          a.step fun h => foldEnc h (encodeCP c (mkCoder [] [w] 1 hr) 0 p)) a
+  | "cp" =>
+    -- `B` is (ab)used as the new precision
+    if !precOk W S B then none else
+    some <| forRange lo hi {} fun a hr =>
+      let a := a.step fun h => foldEnc h (changePrecision c B (mkCoder [] [] 1 hr))
+      (probeWords W).foldl (fun a w =>
+        a.step fun h => foldEnc h (changePrecision c B (mkCoder [] [w] 1 hr))) a
+  | "export" =>
+    some <| forRange lo hi {} fun a hr =>
+      [1, 2, 2^W - 1].foldl (fun a hc =>
+        let x := mkCoder [5] [7] hc hr
+        let a := a.step fun h => match intoRemainders c x with
+          | .ok (p, s) => foldList (foldList (digestStep h 0) p.reverse) s.reverse
+          | .error f => digestStep h (faultCode f)
+        let a := a.step fun h => foldExp h (intoCompressed c x)
+        a.step fun h => foldExp h (intoBinary c x)) a
+  | "import" =>
+    -- constructors on two-word stacks `[w0, w1]` (w1 on top) over a third probe word below
+    some <| forRange lo hi {} fun a w1 =>
+      forRange 0 (2^W - 1) a fun a w0 =>
+        (probeWords W).foldl (fun a w =>
+          let src := [w1, w0, w, 3]
+          let f (r : Option Coder) (h : UInt64) : UInt64 := match r with
+            | some y => foldCoder (digestStep h 0) y
+            | none => digestStep h 9
+          let a := a.step (f (fromBinary c src))
+          let a := a.step (f (fromCompressed c src))
+          a.step (f (fromRemainders c src))) a
+  | _ => none
+
+def handle (segs : List (List String)) : String :=
+  match segs with
+  | ["chain", w, s, p] :: init :: ops =>
+    match parseHex w, parseHex s, parseHex p with
+    | some W, some S, some P =>
+      if !precOk W S P then "unsupported" else
+      match doInit W S P init with
+      | some (some x) => " | ".intercalate (runOps W S { x := x, P := P } ops ["ok"])
+      | some none => "err"
+      | none => "bad-op"
+    | _, _, _ => "bad-op"
+  | [["chainsweep", w, s, p, b, kind, lo, hi]] =>
+    match parseHex w, parseHex s, parseHex p, parseHex b, parseHex lo, parseHex hi with
+    | some W, some S, some P, some B, some lo, some hi =>
+      if !precOk W S P then "unsupported" else
+      match sweep W S P B kind lo hi with
+      | some a => toString a.n ++ " " ++ toHex a.h.toNat
+      | none => "bad-op"
+    | _, _, _, _, _, _ => "bad-op"
+  | _ => "bad-op"
 
 end CV.Driver.Chain
